@@ -154,6 +154,11 @@ sig_source_stop_filter(const struct video_source_s* source)
     // the filter thread.
     struct video_s* self = containerof(source, struct video_s, source);
     self->filter.is_stopping = 1;
+    // The filter's final flush may still emit frames into `sink.in`. Wait for
+    // it before the source goes on to stop the sink; otherwise the sink may
+    // do its own final flush first, and those frames miss this acquisition
+    // and show up at the beginning of the next one.
+    thread_join(&self->filter.thread);
 }
 
 static void
